@@ -1720,7 +1720,7 @@ FIXED = [
 
 def run(ctx):
     nsh = 16
-    per = ctx.n(2000, 30000)
+    per = ctx.n(1600, 30000)
     nprefix = ctx.n(8, 60)
     big = ctx.n(3, 20)
     args = [(ctx.seed, i, per, nprefix, big) for i in range(nsh)]
